@@ -53,6 +53,18 @@ func download(ctx context.Context, url string) (string, error) {
 	return "", fmt.Errorf("unsupported protocol specifier in %s", url)
 }
 
+// newSchema compiles a JSON schema. gojsonschema panics on some malformed
+// schema documents (for example a non-string entry in a "type" list) instead
+// of returning an error, so a panic is turned into one here.
+func newSchema(schemaString string) (schema *gojsonschema.Schema, err error) {
+	defer func() {
+		if r := recover(); r != nil {
+			schema, err = nil, fmt.Errorf("invalid JSON schema: %v", r)
+		}
+	}()
+	return gojsonschema.NewSchema(gojsonschema.NewStringLoader(schemaString))
+}
+
 type RemoteTemplate struct {
 	templateURL        string
 	templateString     string
@@ -101,7 +113,7 @@ func (r *RemoteTemplate) Schema(ctx context.Context) (*gojsonschema.Schema, erro
 			log.Debug().Err(err).Msg("schema download encountered error")
 			return nil, fmt.Errorf("downloading schema: %w", err)
 		}
-		r.schema, err = gojsonschema.NewSchema(gojsonschema.NewStringLoader(schemaString))
+		r.schema, err = newSchema(schemaString)
 		if err != nil {
 			return nil, fmt.Errorf("creating JSON schema: %w", err)
 		}
